@@ -1473,7 +1473,7 @@ func (e *engine) holdRealBus(steps []string, label string) {
 }
 
 func (e *engine) runC33() {
-	e.rep.Rule = "scheduled scenarios on the real establishLinkHandler attached by the real Controller.HandleDirective to a fake directive instance that counts non-weak references: add / non-link add / remove / instance release / disposed callbacks interleaved with the acquire and release goroutines, which are parked at gates and run one at a time in a seeded random order; the guarded fields, pending goroutines and reference count after EVERY step compared with the Lean LTS; plus unscheduled concurrent add/remove storms compared at quiescence; monitor: at every quiescent point the instance holds one strong reference iff a link is live; plus, on a real controllerbus, 2-3 link requests (same target with and without a source peer, another target) on ONE hold-open controller, link values added / removed on each in seeded random interleavings with the acquire goroutines parked and run in random order, the controller joining before / after / while the values exist, concurrent storms; per request at quiescent points: the requester drops its reference and the real instance stays referenced iff it has a link (CloseIfUnreferenced), expired requests are made again; distinct = distinct op line"
+	e.rep.Rule = "scheduled scenarios on the real establishLinkHandler attached by the real Controller.HandleDirective to a fake directive instance that counts non-weak references: add / non-link add / remove / instance release / disposed callbacks interleaved with the acquire and release goroutines, which are parked at gates and run one at a time in a seeded random order; the guarded fields, pending goroutines and reference count after EVERY step compared with the Lean LTS; plus unscheduled concurrent add/remove storms compared at quiescence; plus gate-independent schedules (VerifGate nil): the fake instance's non-weak AddReference BLOCKS, further HandleValueAdded / HandleValueRemoved calls are started while acquisitions are in flight (named: two / three adds before the first acquisition finished, remove while acquiring, second generation; seeded random scripts of 3-16 steps), every call has returned or is blocked (Go scheduler states) before one parked AddReference is let go in random order; monitor: at every quiescent point the instance holds one strong reference iff a link is live; plus, on a real controllerbus, 2-3 link requests (same target with and without a source peer, another target) on ONE hold-open controller, link values added / removed on each in seeded random interleavings with the acquire goroutines parked and run in random order, the controller joining before / after / while the values exist, concurrent storms; per request at quiescent points: the requester drops its reference and the real instance stays referenced iff it has a link (CloseIfUnreferenced), expired requests are made again; distinct = distinct op line"
 	e.rep.Require("hold.sched", "hold.storm", "hold.exclusion", "hold.realbus", "quiescent", "add.spawn", "add.nospawn", "add.other", "remove.release",
 		"remove.keep", "remove.last-unheld", "remove.spurious", "acquire.take", "acquire.skip-nolinks", "acquire.skip-held",
 		"release.live", "release.dead", "instance.released", "disposed.release", "disposed.noref", "acquire.take-dead")
@@ -1550,6 +1550,7 @@ func (e *engine) runC33() {
 		e.holdRealBus(steps, "random")
 	}
 	e.holdStorms()
+	e.holdInflights()
 	e.runC33Multi()
 }
 
